@@ -11,7 +11,7 @@ Transcribed from `contract.rs` (`instantiate`, `execute_execute`,
 `check_staking_permissions`, `check_distribution_permissions`,
 `execute_increase_allowance`, `execute_decrease_allowance`, `execute_set_permissions`,
 `query_allowance`, `query_permissions`, `can_execute`, `query_all_allowances`,
-`query_all_permissions`); `Freeze`, `UpdateAdmins`, `AdminList` are the cw1-whitelist
+`query_all_permissions`, `migrate` with the cw2 `ContractVersion` item); `Freeze`, `UpdateAdmins`, `AdminList` are the cw1-whitelist
 functions on the embedded `ADMIN_LIST`.
 
 State: `ADMIN_LIST` (whitelist config), `ALLOWANCES : Map<&Addr, Allowance>`,
@@ -39,18 +39,62 @@ structure Allowance where
 /-- `Allowance::default()`: empty balance, `Expiration::Never` -/
 def Allowance.default : Allowance := ⟨[], .never⟩
 
+/-- semver `major.minor.patch[-pre]` (one pre-release identifier, compared as a string; a
+pre-release is smaller than its release; build metadata is not modelled). -/
+structure SemVer where
+  major : Nat
+  minor : Nat
+  patch : Nat
+  pre : Option String := none
+  deriving Repr, DecidableEq, Inhabited
+
+/-- semver precedence -/
+def SemVer.lt (a b : SemVer) : Bool :=
+  if a.major ≠ b.major then decide (a.major < b.major)
+  else if a.minor ≠ b.minor then decide (a.minor < b.minor)
+  else if a.patch ≠ b.patch then decide (a.patch < b.patch)
+  else match a.pre, b.pre with
+    | some x, some y => decide (x < y)
+    | some _, none => true
+    | none, _ => false
+
+def CONTRACT_NAME : String := "crates.io:cw1-subkeys"
+def CONTRACT_VERSION : SemVer := ⟨2, 0, 0, none⟩
+
+/-- cw2 `ContractVersion`; `version = none`: the stored string is not a semantic version. -/
+structure Cw2 where
+  contract : String
+  version : Option SemVer
+  deriving Repr, DecidableEq, Inhabited
+
 structure State where
   cfg : AdminList
   allowances : AMap Addr Allowance
   permissions : AMap Addr Permissions
+  /-- the cw2 item `contract_info` (`none`: absent) -/
+  cw2 : Option Cw2 := some ⟨CONTRACT_NAME, some CONTRACT_VERSION⟩
   deriving Repr, DecidableEq, Inhabited
 
 abbrev InstMsg := Cw1Whitelist.InstMsg
 
-/-- `instantiate` = whitelist instantiate (+ cw2 version, not modelled). -/
+/-- `instantiate` = whitelist instantiate, then `set_contract_version(CONTRACT_NAME, CONTRACT_VERSION)`. -/
 def instantiate (m : InstMsg) : Res State := do
   let c ← Cw1Whitelist.instantiate m
-  pure { cfg := c, allowances := [], permissions := [] }
+  pure { cfg := c, allowances := [], permissions := [], cw2 := some ⟨CONTRACT_NAME, some CONTRACT_VERSION⟩ }
+
+/-- `migrate`: fails when the cw2 item is absent or its version does not parse; stores the current
+name and version when the stored version is strictly older; otherwise changes nothing — in
+particular the stored contract *name* is never looked at, and a newer stored version is accepted
+silently. -/
+def migrate (s : State) : Res State :=
+  match s.cw2 with
+  | none => .error "cw2.notfound"
+  | some c =>
+    match c.version with
+    | none => .error "semver"
+    | some v =>
+      if SemVer.lt v CONTRACT_VERSION then pure { s with cw2 := some ⟨CONTRACT_NAME, some CONTRACT_VERSION⟩ }
+      else pure s
 
 inductive Msg where
   | execute (msgs : List CosmosMsg)
